@@ -331,6 +331,22 @@ pub fn run_c18(args: &Args) -> Report {
             let _ = std::fs::remove_dir_all(&cdir);
             std::fs::create_dir_all(&cdir).unwrap();
             write_tree(&before, &cdir);
+            // what only the entry layer and the display code see: a very long non-ASCII file name (status lines are
+            // shortened), a directory whose name is not UTF-8 with a failing source inside (error values carry paths)
+            let mut extra = String::new();
+            if rng.chance(1, 3) {
+                let name = format!("{}.txt.txtpp", "é".repeat(30 + rng.below(30)));
+                let _ = std::fs::write(cdir.join(&name), "long name\nTXTPP#include nope.txt\n");
+                extra.push_str("long-non-ascii-name,");
+            }
+            if rng.chance(1, 3) {
+                use std::os::unix::ffi::OsStrExt;
+                let d = cdir.join(std::ffi::OsStr::from_bytes(b"sub\xff\xfe"));
+                let _ = std::fs::create_dir_all(&d);
+                let _ = std::fs::write(d.join("bad.txt.txtpp"), "x\nTXTPP#include missing-file.txt\n");
+                let _ = std::fs::write(d.join("good.txt.txtpp"), "fine\n");
+                extra.push_str("non-utf8-directory,");
+            }
             let mut c = std::process::Command::new(&bin);
             c.current_dir(&cdir).env_remove("TXTPP_FILE").env("VERIF_LOG", dir.join("cli-markers.log"));
             match mode {
@@ -344,8 +360,17 @@ pub fn run_c18(args: &Args) -> Report {
                 c.arg("-v");
             }
             c.arg("-j").arg(threads.to_string());
-            if cfg.recursive {
+            if cfg.recursive || extra.contains("non-utf8") {
                 c.arg("-r");
+            }
+            // the shell setting: blank, padded, unknown (an error, never a panic); clean has no such flag
+            if mode != "clean" && rng.chance(1, 3) {
+                let sh = *rng.pick(&["", " ", "\t", "  sh   -c  ", "sh -c", "no-such-shell-xyz -c", "sh"]);
+                c.arg("-s").arg(sh);
+                extra.push_str(&format!("shell={sh:?},"));
+            }
+            for k in extra.split(',').filter(|x| !x.is_empty()) {
+                rep.count(&format!("cli-extra:{}", k.split('=').next().unwrap()));
             }
             c.args(&cfg.inputs).stdout(std::process::Stdio::null()).stderr(std::process::Stdio::piped());
             rep.count(if verbose { "cli-verbose-runs" } else { "cli-default-verbosity-runs" });
@@ -369,13 +394,13 @@ pub fn run_c18(args: &Args) -> Report {
                 if status.is_none() {
                     let _ = child.kill();
                     let _ = child.wait();
-                    rep.violation("oracle", &format!("C18: the CLI binary (verbose={verbose}) did not return within 40 s on {} ({})", cfg.describe(), kind), &body);
+                    rep.violation("oracle", &format!("C18: the CLI binary (verbose={verbose}) did not return within 40 s on {} ({}{})", cfg.describe(), kind, extra), &body);
                 }
                 let err = reader.join().unwrap_or_default();
                 if let Some(st) = status {
                     if st.code() == Some(101) || err.contains("panicked at") {
                         let line = err.lines().find(|l| l.contains("panicked at")).unwrap_or("").to_string();
-                        rep.violation("oracle", &format!("C18: the CLI binary (verbose={verbose}) panics on {} ({}): {}", cfg.describe(), kind, line), &body);
+                        rep.violation("oracle", &format!("C18: the CLI binary (verbose={verbose}) panics on {} ({}{}): {}", cfg.describe(), kind, extra, line), &body);
                     }
                 }
             }
